@@ -58,6 +58,13 @@ def gen_qual_value(rng, key, good=True):
     return rng.choice(["", "-", "5-", "-5", "1-2-3", "+5", "1_0", "٣", "5-+6", " 5", "5 ", "0x10", "1e3", "१", "5-６", "9" * 4301, "1-" + "9" * 4301, "²"])
 
 
+# unknown qualifier keys: near-misses of the five keys, and every name that means something to the
+# implementation's own classes (attribute, parameter and dictionary-key names of swhids.py), which
+# are the ones a lookup-based "is this key known?" test could let through
+UNKNOWN_KEYS = ["Origin", "foo", "", "lines ", "path%", "ORIGIN", "vis", "anchors", "line", "object_type", "object_id",
+                "namespace", "scheme_version", "qualifiers", "metadata", "type", "id", "self", "cls", "s", "swhid", "__class__"]
+
+
 def sentence(rng, cls):
     if cls != "qualified":
         return core_text(rng, sc.EXT_TYPES if cls == "extended" else sc.CORE_TYPES)
@@ -119,7 +126,7 @@ def generate(ctx):
     # malformed qualifiers
     for _ in range(ctx.budget(150, 2500)):
         s = core_text(rng)
-        k = rng.choice(sc.KEYS + ["Origin", "foo", "", "lines ", "path%"])
+        k = rng.choice(sc.KEYS + UNKNOWN_KEYS)
         bad = rng.random() < 0.7
         v = gen_qual_value(rng, k, good=not bad) if k in sc.KEYS else rng.choice(["x", ""])
         form = rng.choice(["{s};{k}={v}", "{s};{k}={v};", "{s};;{k}={v}", "{s};{k}", "{s};{k}={v};{k}={v2}", "{s};{k}=={v}", "{s};", "{s};=", "{s};{k}={v};lines=1"])
